@@ -20,19 +20,27 @@ CONSTANTS Conns, MaxItems, Scale,
 VARIABLES phase,        \* per connection: "none" | "http" | "ws" | "closed"
           inmsg, acc,   \* per connection: a fragmented message is being received; its bytes so far
           delivered,    \* ghost: [c, units] of every message handed to the application
+          pad,          \* client role: the upgrade request is padded (by a user header) so that the emitted header block is exactly the size of
+                        \* the connection's fixed emit buffer minus one / that size / plus one: "base" (no padding) | "m1" | "eq" | "p1"
+          seen,         \* ... an unpadded request has been measured
           nitems, lastAct
-vars == <<phase, inmsg, acc, delivered, nitems, lastAct>>
+vars == <<phase, inmsg, acc, delivered, pad, seen, nitems, lastAct>>
 
 Init == /\ phase = [c \in Conns |-> "none"] /\ inmsg = [c \in Conns |-> FALSE] /\ acc = [c \in Conns |-> 0]
-        /\ delivered = <<>> /\ nitems = 0 /\ lastAct = [a |-> "init"]
+        /\ delivered = <<>> /\ pad = "base" /\ seen = FALSE /\ nitems = 0 /\ lastAct = [a |-> "init"]
 
 Connect(c) == /\ Role = "server" /\ phase[c] = "none" /\ phase' = [phase EXCEPT ![c] = "http"]
-              /\ lastAct' = [a |-> "conn", c |-> c, out |-> [rv |-> "ok"]] /\ UNCHANGED <<inmsg, acc, delivered, nitems>>
+              /\ lastAct' = [a |-> "conn", c |-> c, out |-> [rv |-> "ok"]] /\ UNCHANGED <<inmsg, acc, delivered, pad, seen, nitems>>
 \* client role: the dialer (re)connects whenever it has no connection; the driver accepts and reads the upgrade request, which
 \* must be well-formed (request line, Host, Upgrade, Connection, 24-character key, version 13, sub-protocol, CRLF line ends)
 Accept(c) == /\ Role = "client" /\ phase[c] = "none" /\ \A d \in Conns : phase[d] \in {"none", "closed"}
              /\ phase' = [phase EXCEPT ![c] = "http"]
-             /\ lastAct' = [a |-> "accept", c |-> c, out |-> [rv |-> "ok", wf |-> TRUE]] /\ UNCHANGED <<inmsg, acc, delivered, nitems>>
+             /\ seen' = TRUE
+             /\ lastAct' = [a |-> "accept", c |-> c, out |-> [rv |-> "ok", wf |-> TRUE, blk |-> pad]] /\ UNCHANGED <<inmsg, acc, delivered, pad, nitems>>
+\* the application adds a request header (NNG_OPT_WS_HEADER) of a length that puts the next request at the emit buffer's boundary
+Pad(cls) == /\ Role = "client" /\ seen /\ pad # cls /\ nitems < MaxItems /\ \A d \in Conns : phase[d] \in {"none", "closed"}
+            /\ pad' = cls /\ nitems' = nitems + 1
+            /\ lastAct' = [a |-> "pad", cls |-> cls, out |-> [rv |-> "ok"]] /\ UNCHANGED <<phase, inmsg, acc, delivered, seen>>
 \* the driver's answer to the upgrade request: anything but a correct 101 makes the client drop the connection
 RespKinds == {"ok", "bad_accept", "no_accept", "no_upgrade", "no_connection", "upgrade_case", "wrong_proto", "no_proto",
               "status200", "status400", "status404", "garbage", "short_close"}
@@ -40,7 +48,7 @@ Resp(c, k) ==
   /\ Role = "client" /\ phase[c] = "http" /\ nitems < MaxItems /\ nitems' = nitems + 1
   /\ phase' = [phase EXCEPT ![c] = IF k = "ok" THEN "ws" ELSE "closed"]
   /\ lastAct' = [a |-> "resp", c |-> c, k |-> k, hc |-> (k # "ok"), out |-> [closed |-> (k # "ok")]]
-  /\ UNCHANGED <<inmsg, acc, delivered>>
+  /\ UNCHANGED <<inmsg, acc, delivered, pad, seen>>
 
 \* ---------------------------------------------------------------- HTTP upgrade
 \* kind -> <<status, connection closed afterwards>>.  Error responses keep the connection (HTTP/1.1 persistence) unless the
@@ -66,7 +74,7 @@ Http(c, k) ==
   /\ LET r == HttpResult(k) IN
        /\ phase' = [phase EXCEPT ![c] = IF r[2] THEN "closed" ELSE IF r[1] = 101 THEN "ws" ELSE "http"]
        /\ lastAct' = [a |-> "http", c |-> c, k |-> k, hc |-> r[2], out |-> [status |-> r[1], wf |-> TRUE, closed |-> r[2]]]
-  /\ UNCHANGED <<inmsg, acc, delivered>>
+  /\ UNCHANGED <<inmsg, acc, delivered, pad, seen>>
 
 \* ---------------------------------------------------------------- WebSocket frames from the client
 OpCont == 0  OpText == 1  OpBin == 2  OpClose == 8  OpPing == 9  OpPong == 10
@@ -101,6 +109,7 @@ Frame(c, f) ==
                        out |-> [got |-> IF v[1] = "deliver" THEN <<total>> ELSE <<>>,
                                 replies |-> IF v[1] = "pong" THEN <<<<OpPong, TRUE>>>> ELSE IF v[1] \in {"fail", "bye"} THEN <<<<OpClose, v[2]>>>> ELSE <<>>,
                                 wf |-> TRUE, closed |-> (v[1] \in {"fail", "bye"})]]
+        /\ UNCHANGED <<pad, seen>>
 M == (Role = "server")      \* the mask bit of a well-formed frame from the peer
 DataFrames == [fin : BOOLEAN, op : {OpCont, OpBin}, masked : {M}, rsv : {0}, enc : {0}, n : Units]
 OddFrames == [fin : {TRUE}, op : {OpBin}, masked : {~M}, rsv : {0}, enc : {0}, n : {1}]                     \* wrong mask bit
@@ -119,9 +128,9 @@ Send(c, n) ==
   /\ LET bytes == n * Scale  fs == FragSize * Scale
          nfrag == IF fs = 0 \/ bytes <= fs THEN 1 ELSE (bytes + fs - 1) \div fs
      IN lastAct' = [a |-> "send", c |-> c, n |-> n, ser |-> nitems + 1, out |-> [rv |-> "ok", units |-> n, ok |-> TRUE, nfrag |-> nfrag]]
-  /\ UNCHANGED <<phase, inmsg, acc, delivered>>
+  /\ UNCHANGED <<phase, inmsg, acc, delivered, pad, seen>>
 
-Next == \E c \in Conns : Connect(c) \/ Accept(c) \/ (\E k \in HttpKinds : Http(c, k)) \/ (\E k \in RespKinds : Resp(c, k))
+Next == (\E cls \in {"m1", "eq", "p1"} : Pad(cls)) \/ \E c \in Conns : Connect(c) \/ Accept(c) \/ (\E k \in HttpKinds : Http(c, k)) \/ (\E k \in RespKinds : Resp(c, k))
                          \/ (\E f \in DataFrames \cup OddFrames : Frame(c, f))
                          \/ (\E n \in Units : Send(c, n))
 Spec == Init /\ [][Next]_vars
@@ -132,7 +141,7 @@ Bounded == \A i \in 1..Len(delivered) : RecvMax > 0 => delivered[i].n <= RecvMax
 NoGhostMessage == \A c \in Conns : (~inmsg[c] => acc[c] = 0) /\ (phase[c] # "ws" => ~inmsg[c])
 AccBounded == \A c \in Conns : RecvMax > 0 => acc[c] <= RecvMax * Scale
 
-SId == <<phase, inmsg, acc, nitems>>
+SId == <<phase, inmsg, acc, pad, seen, nitems>>
 Obs == [S_open |-> {c \in Conns : phase[c] \in {"http", "ws"}}]
 FinV == 0
 ExportEdge == PrintT(<<"E", ToJson([s |-> SId, sa |-> lastAct, d |-> SId', act |-> lastAct', obs |-> Obs', fin |-> FinV'])>>)
